@@ -328,15 +328,13 @@ class Anchors:
         """Objects whose reader end is in the manager's wait set and that are
         not queues."""
         out = set()
-        for f, n in self.wait_calls:
-            if not n.args:
-                continue
-            for leaf in self.wait_leaves(f, n.args[0]):
-                if isinstance(leaf, ast.Attribute):
-                    for o in self.pt.ev(f, leaf.value):
-                        if o[0] == "obj" and o[2] in self.prog.classes and not self.pt.has_ext_base(o[2]):
+        for vals in self.exec_fields.values():
+            for o in vals:
+                if o[0] == "obj" and o[2] in self.prog.classes and not self.pt.has_ext_base(o[2]):
+                    for a_ in self.pt.fields.get(o, ()):
+                        if any(v[0] == "obj" and v[2] == "ext:Connection" for v in self.pt.get(("F", o, a_))):
                             out.add(o)
-        return self.need(out, "wake-up object (reader in the manager's wait set)")
+        return self.need(out, "wake-up object (executor field owning a pipe)")
 
     def wait_leaves(self, func, expr, depth=8):
         """Leaves of the wait-set expression after expanding locals."""
